@@ -463,9 +463,44 @@ def r6(ctx):
     ctx.floor(rule, n, "C15.R6.guards")
 
 
+def r7(ctx):
+    rule = "C15.R7"
+    ctx.rule(rule, "extensible INTEGERs never take the narrowing path: every call of asn_fixed_integer_to_rust_type (type definitions, "
+                   "fields and the types of value references alike) lies on a path on which `range.extensible()` of that INTEGER was "
+                   "tested false - a sibling that lost its extensible arm maps `INTEGER (0..255, ...)` to u8, which cannot hold the "
+                   "values beyond the root the constraint permits")
+    P = ctx.program()
+    n = 0
+    for b in P.lib_bodies("asn1rs_model"):
+        if "::tests::" in b.path or "::promoted[" in b.path or b.derived:
+            continue
+        O = None
+        for cs in b.calls():
+            if cs.name != "asn_fixed_integer_to_rust_type":
+                continue
+            O = O or X.Origins(b, P)
+            n += 1
+            guarded = False
+            seen = []
+            for s_bb, ex, val in R.path_conditions(b, O, cs.bb):
+                e = X.strip(ex)
+                seen.append("%s = %s" % (X.render(e)[:60], val))
+                if any(x[0] == "call" and X.last_seg(x[1] or "") == "extensible" for x in X.walk(e)) and not val:
+                    guarded = True
+            key = "%s#asn_fixed_integer_to_rust_type" % (b.root or b.path)
+            d = {"function": b.path, "call": cs.loc(), "conditions": seen[-4:]}
+            if guarded:
+                ctx.ok(rule, key, d)
+            else:
+                ctx.fail(rule, key, "%s hands an INTEGER to asn_fixed_integer_to_rust_type without having tested that its range is not "
+                                    "extensible: an extensible INTEGER gets the narrowest type of its root" % X.short(b.path), cs.loc(), d)
+    ctx.floor(rule, n, "C15.R7.calls")
+
+
 def run(ctx):
     r1(ctx)
     r2_r4(ctx)
     r3(ctx)
     r5(ctx)
     r6(ctx)
+    r7(ctx)
